@@ -28,7 +28,7 @@ from .auth import PWUser
 from .client import CAPABILITIES, ClientState, PreAuthenticated
 from .constants import MAX_INPUT_SIZE
 from .parse import BadCommand, parse_cmd_from_msg
-from .utils import UpgradeableReadWriteLock
+from .utils import UpgradeableReadWriteLock, oneline
 
 if TYPE_CHECKING:
     from _typeshed import StrPath
@@ -824,7 +824,7 @@ class IMAPSubprocessInterface:
             #     over some sort of limit we should slow down our responses and
             #     ultimately disconnect the client.
             try:
-                await self.imap_client.push(f"* BAD {e}\r\n")
+                await self.imap_client.push(f"* BAD {oneline(e)}\r\n")
                 return True
             except ConnectionError as e:
                 # Do not need a full stack trace for a connection error.
@@ -855,7 +855,7 @@ class IMAPSubprocessInterface:
             try:
                 m = (
                     "* BAD Internal error processing command "
-                    f"{imap_cmd}: {e}\r\n"
+                    f"{oneline(imap_cmd)}: {oneline(e)}\r\n"
                 )
                 await self.imap_client.push(m)
             except Exception:
@@ -885,7 +885,9 @@ class IMAPSubprocessInterface:
                     else:
                         logger.exception(m)
                     try:
-                        await self.imap_client.push(f"* BAD {e}\r\n")
+                        await self.imap_client.push(
+                            f"* BAD {oneline(e)}\r\n"
+                        )
                     except Exception:
                         pass
                     if self.writer:
